@@ -10,7 +10,7 @@ from ..px import OK, PX, RAISE, Outcomes
 from ..pxv import Obj, Sym
 from ..te import ClassRef, FuncRef, Member
 from .util import anchor_attrs
-from .util import const, fut, member, self_obj, text, who_may_call
+from .util import acquire_release_use, const, fut, member, self_obj, text, who_may_call
 
 ASH = "bellows.ash"
 
@@ -675,6 +675,8 @@ def r05_9(ctx):
             if isinstance(p, ast.Call) and isinstance(p.func, ast.Attribute) and p.func.attr == "enter_async_context" and any(a is n for a in p.args):
                 # entered through a contextlib.AsyncExitStack: the same acquire / release-on-every-exit pairing as `async with`
                 parent_ok = f.cls is not None and f.cls.name == "AshProtocol"
+        if not parent_ok and f.cls is not None and f.cls.name == "AshProtocol" and acquire_release_use(f.node, n):
+            parent_ok = True  # `await sem.acquire()` + try/finally `sem.release()`: the explicit spelling of `async with`
         ctx.require(parent_ok, f"semaphore-use:{f.short}", f"transmit-window semaphore used in {f.short} other than as "
                     f"`async with` / locked(): line {n.lineno}", func=f, node=n)
 
